@@ -557,6 +557,11 @@ func main() {
 	lb.WriteString("/-- what the source of one `function.New(&function.Spec{…})` in cty/function/stdlib says, syntactically -/\n")
 	lb.WriteString("structure StdSyntax where\n  var : String\n  file : String\n  staticType : Option String   -- argument of function.StaticReturnType, `none` = a Type callback\n  refine : String              -- \"none\" | \"refineNonNull\" | \"inline\"\n  heads : List String          -- heads of the `return X, nil` statements of Impl\n  nparams : Nat\n  hasVarParam : Bool\n  deriving Repr, DecidableEq\n\n")
 	fmt.Fprintf(&lb, "/-- body of stdlib's `refineNonNull` helper -/\ndef refineNonNullBody : String := %s\n\n", leanStr(rnn))
+	srt := findFunc(parseDir(filepath.Join(*repo, "cty/function")), "StaticReturnType")
+	if srt == nil {
+		die("function.StaticReturnType not found")
+	}
+	fmt.Fprintf(&lb, "/-- body of `function.StaticReturnType(ty)` (whitespace-normalised) -/\ndef staticReturnTypeBody : String := %s\n\n", leanStr(strings.Join(strings.Fields(src(srt.Body)), " ")))
 	lb.WriteString("def stdlibSyntax : List StdSyntax := [\n")
 	for i, f := range fns {
 		st := "none"
